@@ -22,7 +22,7 @@ ASSUMPTIONS = ["satisfiability is decided constructively by rv/gen_value.witness
 REACH_FILES = ['d42/generation/_generator.py', 'd42/generation/_random.py', 'd42/generation/_regex_generator.py']
 TIERS = {"quick": dict(shards=16, cases=12000), "thorough": dict(shards=16, cases=60000)}
 
-PROF = Profile(max_depth=3, p_unsat=0.04)
+PROF = Profile(max_depth=3, p_unsat=0.04, wrap=0.04)
 
 
 def features(spec):
@@ -66,7 +66,8 @@ def derive(ctx, rng, case):
     r = rng.random()
     if r < 0.62:
         spec = gen_spec(rng, PROF)
-        schema = O.try_build(ctx, spec)
+        from .. import custom
+        schema = O.try_build(ctx, spec, wrapper=custom.wrap)   # a few nodes are forwarding custom types
         return None if schema is None else (spec, schema, "dsl")
     if r < 0.72:
         a, b = gen_spec(rng, PROF, depth=rng.randint(0, 2)), gen_spec(rng, PROF, depth=rng.randint(0, 2))
